@@ -32,6 +32,9 @@ def render(rows, extra_columns: bool) -> str:
     return "\n".join(out) + "\n"
 
 
+_READER = {}
+
+
 def d10(v) -> int:
     return int(round(float(v) * 10))
 
@@ -40,7 +43,7 @@ def run_read(rows, flt, extra_columns, as_queries):
     from src.parsers.cmap_reader import CmapReader
     text = render(rows, extra_columns)
     f = io.StringIO(text)
-    reader = CmapReader()
+    reader = _READER.setdefault("r", CmapReader())     # one reader object for all files, as a long-lived tool would
     maps = reader.readQueries(f, list(flt)) if as_queries else reader.readReferences(f, list(flt))
     return maps
 
